@@ -570,9 +570,9 @@ def _resolve_tracks_sizes(sizing_functions, box_size, children_positions,
         direction == 'y' and set(align_content) & {'normal', 'stretch'})
     if (x_stretch or y_stretch) and free_space is not None and free_space > 0:
         auto_tracks_sizes = [
-            sizes for sizes, (min_function, _)
+            sizes for sizes, (_, max_function)
             in zip(tracks_sizes, sizing_functions)
-            if min_function == 'auto']
+            if max_function == 'auto']
         if auto_tracks_sizes:
             distributed_free_space = free_space / len(auto_tracks_sizes)
             for sizes in auto_tracks_sizes:
